@@ -347,4 +347,5 @@ def cases(tier, seed):
     for u in ["meter", "radian", "percent", "count", "degree", "kelvin", "degree_Celsius", "delta_degree_Celsius", "newton", "ppm", "byte"]:
         out.append(Case("H05.e", u, M, "h_bare", {"u": u}))
         out.append(Case("H05.e", u + ":huge", M, "h_bare", {"u": u, "huge": True}))
+    out.append(Case("H05.obs", "observed", "pvlib.harness.observed", "h_c05", {}, kind="conc"))
     return out
